@@ -68,3 +68,30 @@ let () =
   register "conn_header" (function [m] ->
       let b = bytes_of (str m) in
       L [vint (int_of_n ByteSeq.size_of_header); vint (int_of_n (ByteSeq.type_id b)); vint (int_of_n (ByteSeq.payload_size b))] | _ -> failwith "arity")
+
+(* ---- Model/Proto.v (C13) ---- *)
+let z_of_int i = if i = 0 then BinNums.Z0 else if i > 0 then BinNums.Zpos (pos_of_int i) else BinNums.Zneg (pos_of_int (- i))
+let rec int_of_nat = function Datatypes.O -> 0 | Datatypes.S n -> 1 + int_of_nat n
+(* interface: [[id size] ...] *)
+let iface v = List.map (fun e -> match lst e with [i; s] -> (n_of_int (int_of i), n_of_int (int_of s)) | _ -> failwith "iface entry") (lst v)
+let vcall = function
+  | Proto.Handler (i, b) -> L [S "H"; vint (int_of_nat i); vbytes b]
+  | Proto.NotHandled b -> L [S "N"; vbytes b]
+
+let () =
+  (* proto_dispatch <iface> <unhandled set 0/1> <msg> -> [calls] *)
+  register "proto_dispatch" (function [i; u; m] ->
+      L (List.map vcall (Proto.dispatch (iface i) (str u = "1") (bytes_of (str m)))) | _ -> failwith "arity");
+  (* proto_transmit <retries> <k = number of leading rejected attempts, or "never"> -> [ok calls] *)
+  register "proto_transmit" (function [r; k] ->
+      let accept = (match str k with "never" -> (fun _ -> false) | ks -> let kk = int_of_string ks in (fun n -> int_of_nat n >= kk)) in
+      (match Proto.transmit (z_of_int (int_of r)) accept with
+       | None -> S "fuel"
+       | Some (ok, calls) -> L [vbool ok; vint (int_of_nat calls)]) | _ -> failwith "arity");
+  register "proto_sent_bytes" (function [m] -> vbytes (Proto.sent_bytes (bytes_of (str m))) | _ -> failwith "arity");
+  (* proto_round_trip <p0p1> <iface> <unhandled 0/1> [chunks] -> [calls] | "fail" *)
+  register "proto_round_trip" (function [p; i; u; cs] ->
+      let (p0, p1) = pre p in
+      (match Proto.round_trip p0 p1 (iface i) (str u = "1") (chunks cs) with
+       | None -> S "fail" | Some calls -> L (List.map vcall calls)) | _ -> failwith "arity");
+  register "proto_iface_ok" (function [i] -> vbool (Proto.iface_ok (iface i)) | _ -> failwith "arity")
